@@ -20,6 +20,9 @@ Two families of streams, one oracle:
 * transport: whole simulated races (harness/sim_race.py, scenarios of c01, pipeline projection of c07 - read-only) judged with
   the shipments taken to be everything the samplers accepted, and the direct transport at sizes up to 2^17 with throughput as
   the observable (see the comments at `run_race` / `run_transport_direct`).
+* configuration and time stamps (round 6): the Driver of every driver / executor / transport case is prepared by the real
+  `Driver.prepare_benchmark` from a configuration object (down-sampling option absent / int / str), and the executor stream
+  has throttled tasks whose samples are judged against the case's own log of when each request started.
 Returned tuples / records are compared exactly (`float.as_integer_ratio`).  The direct oracle recomputes, with
 `Fraction`s and without any bucket logic, what every emitted value has to be: (sum of the operations of
 all samples fed so far except those sorted after the emitting sample in the current batch, each once) /
@@ -44,7 +47,9 @@ RULE = ("sample streams of 1-3 tasks x 1-4 clients (warm-up then normal samples,
         "negative/ordinary, weight and unit present or defaulted; iteration / runner-completes / time-period tasks, the latter with ramp-up) through real "
         "execute_single/AsyncExecutor/Sampler into (b); (b) and (c) with store faults (put throughput / put other / flush, any run); (d) whole simulated races (over-committed parallel elements, "
         "time-based tasks, ramp-up, pickled messages, periodic post-processing; branch counters in the evidence) and the direct transport at 2^0..2^17 "
-        "samples; a case is non-trivial when at least one call starts with carried-over samples; "
+        "samples; every Driver comes from the real Driver.prepare_benchmark with reporting/metrics.request.downsample.factor absent / int / str "
+        "(1,2,3,5,8); (c) has throttled tasks (target-throughput number / 'N ops/s' / target-interval; on and behind schedule) with absolute_time "
+        "taken from the case's own log of the runner calls; a case is non-trivial when at least one call starts with carried-over samples; "
         "signature = (model branch tags, cutting mode, number of tasks, oracle outcome[, samples after a batch with a 100 % sample])")
 TRUSTED = [
     "IEEE-754 model RallyModel/Dbl.lean for `a - b`, `float(count)` and `count / interval` (validated bit-for-bit against CPython; the floats "
@@ -633,7 +638,7 @@ def gen_driver_cases(rng, exact=True, pass_prob=0.0):
         return
     tmax = max(Fraction(smp["abs"]) for smp in stream)
     flush = flush_samples(rng, stream, Fraction(int(tmax)), int_times)
-    downsample = rng.choice([1, 1, 1, 2, 3])
+    downsample = rng.choice([1, 1, 1, 2, 2, 3, 5, 8])
     copies = rng.random() < 0.3
     for placement in ("end-only", "every-shipment", "random"):
         events = []
@@ -709,7 +714,7 @@ def gen_driver_boundary(ctx):
             for smp in stream[prev:]:
                 events.append([smp])
             events += ["pp", fl, "pp"]
-            yield {"exact": True, "copies": False, "cut": "all-placements", "ntasks": 1, "downsample": 1, "events": events,
+            yield {"exact": True, "copies": False, "cut": "all-placements", "ntasks": 1, "downsample": rng.choice([1, 1, 2, 3]), "events": events,
                    "faults": gen_faults(rng, len(cut) + 1, p=0.25)}
 
 
@@ -726,6 +731,70 @@ def _new_store():
     store = metrics.InMemoryMetricsStore(cfg)
     store.open("c06-race", datetime.datetime(2016, 1, 31), "track", "challenge", "car", create=True)
     return cfg, store
+
+
+class _Holder:
+    def __init__(self, all_hosts=None, all_client_options=None):
+        self.all_hosts = all_hosts
+        self.all_client_options = all_client_options
+        self.uses_static_responses = False
+
+
+class _StaticClientFactory:
+    def __init__(self, *args, **kwargs):
+        from unittest import mock
+
+        self.es = mock.MagicMock()
+
+    def create(self):
+        return self.es
+
+
+def _new_driver(case):
+    """a real Driver prepared the way a race prepares it: `Driver.prepare_benchmark` reads the configuration (in particular
+    reporting/metrics.request.downsample.factor, in the spelling the case chose: absent, an int, or the string an ini file
+    yields), opens the metrics store and creates the post-processor.  Returns (driver, its store, the option as configured)."""
+    import datetime
+    from unittest import mock
+
+    from esrally import config, track
+    from esrally.driver import driver
+
+    ds = case.get("downsample", 1)
+    spelling = case.get("ds_spelling")
+    if spelling is None:
+        n = len(case.get("events", [])) + len(case.get("tasks", []))
+        spelling = "absent" if ds == 1 and n % 2 == 0 else ("str" if (ds + n) % 2 == 0 else "int")
+    opt = None if (spelling == "absent" and ds == 1) else (str(ds) if spelling == "str" else ds)
+    cfg = config.Config()
+    A = config.Scope.application
+    cfg.add(A, "system", "env.name", "c06")
+    cfg.add(A, "system", "time.start", datetime.datetime(2016, 1, 31))
+    cfg.add(A, "system", "race.id", "6ebc6e53-ee20-4b0c-99b4-09697987e9f4")
+    cfg.add(A, "system", "available.cores", 8)
+    cfg.add(A, "system", "quiet.mode", True)
+    cfg.add(A, "node", "root.dir", "/tmp")
+    cfg.add(A, "track", "challenge.name", "challenge")
+    cfg.add(A, "track", "params", {})
+    cfg.add(A, "track", "test.mode.enabled", False)
+    cfg.add(A, "telemetry", "devices", [])
+    cfg.add(A, "telemetry", "params", {})
+    cfg.add(A, "mechanic", "car.names", ["car"])
+    cfg.add(A, "mechanic", "skip.rest.api.check", True)
+    cfg.add(A, "client", "hosts", _Holder(all_hosts={"default": ["localhost:9200"]}))
+    cfg.add(A, "client", "options", _Holder(all_client_options={"default": {}}))
+    cfg.add(A, "driver", "load_driver_hosts", ["localhost"])
+    cfg.add(A, "reporting", "datastore.type", "in-memory")
+    if opt is not None:
+        cfg.add(A, "reporting", "metrics.request.downsample.factor", opt)
+    task = track.Task(name="c06-any", operation=track.Operation("c06-any", operation_type="bulk"), clients=1)
+    t = track.Track(name="track", description="c06", challenges=[track.Challenge("challenge", default=True, schedule=[task])])
+    d = driver.Driver(mock.MagicMock(), cfg, es_client_factory_class=_StaticClientFactory)
+    d.prepare_benchmark(t)
+    store = d.metrics_store
+    if store is None or not hasattr(store, "docs"):
+        raise HarnessError("prepare_benchmark did not open an in-memory metrics store")
+    return d, store, opt
 
 
 def _msample(k, o):
@@ -761,7 +830,7 @@ def _drive(ctx, case, events):
 
     from esrally import exceptions
 
-    cfg, store = _new_store()
+    d, store, ds_opt = _new_driver(case)
     spy = []
     orig = store.put_value_cluster_level
     orig_flush = store.flush
@@ -797,10 +866,9 @@ def _drive(ctx, case, events):
     faults = {f["run"]: f for f in case.get("faults", [])}
     aborted = False
     swallowed = False
-    d = driver.Driver(None, cfg)
-    d.metrics_store = store
-    d.sample_post_processor = driver.SamplePostprocessor(store, case.get("downsample", 1), {}, {})
     orc = Oracle(ctx, case)
+    ctx.count("downsample-option:" + ("absent" if ds_opt is None else type(ds_opt).__name__ + ":" + str(ds_opt)))
+    kept_runs = []  # per healthy run: number of samples that got request-metric (latency) records
     names = {}
     model_events, impl_runs = [], []
     pending_batch = []  # reference semantics of the buffer: everything shipped since the previous run
@@ -848,6 +916,7 @@ def _drive(ctx, case, events):
         if want_docs != got_docs:
             orc.fail("store-record", f"run {ci}: throughput documents in the metrics store differ from the records handed to it", want_docs[:5], got_docs[:5])
         impl_runs.append(recs)
+        kept_runs.append(None if cur["fired"] else sum(1 for a, kw in spy[n_spy:] if kw.get("name") == "latency"))
         # oracle: group by task in the order of the batch; no record may belong to a task without samples in the batch
         groups = []
         for smp in pending_batch:
@@ -869,10 +938,12 @@ def _drive(ctx, case, events):
         if orc.stale_run() >= STALE_CAP and ei + 1 < len(events):
             ctx.count("truncated-after-stale-run")
             break
-    m = ctx.model("throughput", "pp_run", {"events": model_events})
+    m = ctx.model("throughput", "pp_run", {"events": model_events, "downsample": None if ds_opt is None else int(ds_opt)})
     if "r" not in m:
         raise HarnessError(f"model rejected the case: {m}")
     tags = sorted(m.get("tags", []))
+    if "kept" in m["r"] and m["r"]["kept"] != kept_runs[: len(m["r"]["kept"])]:
+        ctx.diff("samples with request-metric records per run (down-sampling)", m["r"]["kept"], kept_runs)
     if m["r"]["runs"] != impl_runs:
         for i, (a, b) in enumerate(zip(m["r"]["runs"], impl_runs)):
             if a != b:
@@ -954,6 +1025,14 @@ def gen_exec_cases(rng):
             T = Fraction(rng.choice([1, 2, 4]))
             R = rng.choice([None, W, W, W / 2, W * 3 / 4])
             tparams = {"warmup_t": fs(W), "period": fs(T), "ramp_up": None if R is None else fs(R)}
+        # throttling: a target throughput / target interval in one of its legal spellings.  Whether the client keeps up with
+        # it (sleeps until the scheduled point) or falls behind (does not sleep) depends on the scripted service times
+        throttle = None
+        if rng.random() < 0.45:
+            tt = rng.choice([1, 2, 4, 8, 8, 16, 32])
+            spelling = rng.choice(["number", "string", "interval"])
+            throttle = {"target-throughput": tt} if spelling == "number" else (
+                {"target-throughput": f"{tt} ops/s"} if spelling == "string" else {"target-interval": float(Fraction(1, tt))})
         clients = []
         for c in range(nclients):
             n = rng.choice([1, 2, 3, 5, 8, 12])
@@ -978,10 +1057,11 @@ def gen_exec_cases(rng):
                         res = {"k": "dict", "w": rng.choice([None, 0, 1, 100, 5000]), "unit": unit, "tput": "absent" if kind == "dict-absent" else None}
                 calls.append({"service": fs(service), "result": res})
             clients.append({"worker": rng.randrange(2), "n": n, "warm": warm, "calls": calls})
-        tasks.append({"k": k, "mode": mode, "loop": loop, "tparams": tparams, "clients": clients})
+        tasks.append({"k": k, "mode": mode, "loop": loop, "tparams": tparams, "throttle": throttle, "clients": clients})
     # a ramp-up wait is ramp_up * i / clients: not a dyadic number in general, the sums of times are then rounded
-    inexact = any(t["tparams"] is not None and t["tparams"]["ramp_up"] is not None for t in tasks)
-    base = {"exact": not inexact, "copies": False, "ntasks": ntasks, "downsample": rng.choice([1, 1, 2]),
+    # (the same holds for the waiting time 1 / (target throughput / clients) of a throttled task)
+    inexact = any((t["tparams"] is not None and t["tparams"]["ramp_up"] is not None) or t["throttle"] is not None for t in tasks)
+    base = {"exact": not inexact, "copies": False, "ntasks": ntasks, "downsample": rng.choice([1, 1, 2, 3]),
             "t0": fs(Fraction(rng.randrange(0, 4000), 4)), "epoch": fs(Fraction(1470838595) + Fraction(rng.randrange(0, 64), 8)), "tasks": tasks}
     for placement in ("end-only", "every-shipment", "random"):
         yield dict(base, cut=placement, seed=rng.randrange(1 << 30), faults=gen_faults(rng, 6, p=0.2))
@@ -1051,6 +1131,28 @@ def run_exec_case(ctx, case):
     script = {(t["k"], ci): cl["calls"] for t in case["tasks"] for ci, cl in enumerate(t["clients"])}
     progress = {}
     ends = {}  # the case's own measurement: performance counter when the response of each runner call arrived
+    starts = {}  # the case's own measurement: (performance counter, wall clock) when each runner call was entered
+    sched_log = {}  # what the schedule handed out: (expected_scheduled_time, performance counter at that moment)
+
+    class HandleSpy:
+        """the real ScheduleHandle, observed: everything is forwarded, the tuples it yields are logged"""
+
+        def __init__(self, handle, log):
+            self._handle, self._log = handle, log
+
+        def __call__(self):
+            agen = self._handle()
+            log = self._log
+
+            async def observed():
+                async for item in agen:
+                    log.append((item[0], clock.perf_counter()))
+                    yield item
+
+            return observed()
+
+        def __getattr__(self, name):
+            return getattr(self._handle, name)
 
     class Source:
         infinite = True
@@ -1082,6 +1184,7 @@ def run_exec_case(ctx, case):
             q = calls[params["i"]]
             progress[(params["k"], params["c"])] = params["i"] + 1
             self._last = (params["k"], params["c"])
+            starts.setdefault((params["k"], params["c"]), []).append((clock.perf_counter(), clock.time()))
             service = float(Fraction(q["service"]))
             es.on_request_start()
             if service > 0:
@@ -1120,12 +1223,13 @@ def run_exec_case(ctx, case):
             ncl = len(t["clients"])
             # iteration counts are per task in Rally; clients with fewer scripted calls stop when their parameter source is exhausted
             tp = t.get("tparams")
+            tparams_throttle = dict(t.get("throttle") or {})
             if tp is not None:
-                task = track.Task(f"task-{t['k']}", track.Operation(f"op-{t['k']}", op_type, params={}),
+                task = track.Task(f"task-{t['k']}", track.Operation(f"op-{t['k']}", op_type, params={}), params=tparams_throttle,
                                   warmup_time_period=float(Fraction(tp["warmup_t"])), time_period=float(Fraction(tp["period"])),
                                   ramp_up_time_period=None if tp["ramp_up"] is None else float(Fraction(tp["ramp_up"])), clients=ncl)
             else:
-                task = track.Task(f"task-{t['k']}", track.Operation(f"op-{t['k']}", op_type, params={}),
+                task = track.Task(f"task-{t['k']}", track.Operation(f"op-{t['k']}", op_type, params={}), params=tparams_throttle,
                                   warmup_iterations=None if polling else max(cl["warm"] for cl in t["clients"]),
                                   iterations=None if polling else max(cl["n"] for cl in t["clients"]),
                                   clients=ncl)
@@ -1135,7 +1239,7 @@ def run_exec_case(ctx, case):
                 if w not in samplers:
                     samplers[w] = driver.Sampler(start_timestamp=clock.perf_counter())
                 alloc = driver.TaskAllocation(task=task, client_index_in_task=ci, global_client_index=ci, total_clients=ncl)
-                handle = driver.schedule_for(alloc, Source(t["k"]))
+                handle = HandleSpy(driver.schedule_for(alloc, Source(t["k"])), sched_log.setdefault((t["k"], ci), []))
                 executors.append(driver.AsyncExecutor(client_id=len(executors), task=task, schedule=handle, es={"default": SimClient()},
                                                       sampler=samplers[w], cancel=threading.Event(), complete=threading.Event(), on_error="continue"))
                 executors[-1]._c06 = (t["k"], ci)
@@ -1155,6 +1259,7 @@ def run_exec_case(ctx, case):
     # what each worker drains (completion order), tied back to the scripted call: the i-th sample of a client is its i-th call
     seen = {}
     ships = []
+    stamp_failures = []
     rng = _random.Random(case["seed"])
     per_worker = []
     for w, sampler in sorted(samplers.items()):
@@ -1167,7 +1272,12 @@ def run_exec_case(ctx, case):
             # time_period is "time since the task started": taken from the case's own clock readings (arrival of the response,
             # start of the task), not from the sample
             req_end = ends[(k, ci)][i]
-            ms = {"task": k, "abs": fs(o.absolute_time), "rel": fs(o.relative_time), "req_end": fs(req_end), "total_start": fs(task_start_perf),
+            # absolute_time is "the wall clock when the request started": taken from the case's own log of the runner calls, not
+            # from the sample (the calculator derives the elapsed time of the task from this field)
+            began_perf, began_wall = starts[(k, ci)][i]
+            if Fraction(o.absolute_time) != Fraction(began_wall):
+                stamp_failures.append((k, ci, i, o.absolute_time, began_wall))
+            ms = {"task": k, "abs": fs(began_wall), "rel": fs(o.relative_time), "req_end": fs(req_end), "total_start": fs(task_start_perf),
                   "normal": o.sample_type.name == "Normal", "result": _result_model(res)}
             ops, unit, tp = _result_oracle(res)
             osmp = {"task": k, "abs": ms["abs"], "rel": ms["rel"], "period": fs(Fraction(req_end) - Fraction(task_start_perf)), "normal": ms["normal"],
@@ -1186,6 +1296,28 @@ def run_exec_case(ctx, case):
         if (seen.get(cid, 0) > len(calls)) if timed else (seen.get(cid, 0) != len(calls)):
             orc_note = f"client {cid} of task {k}: {len(calls)} runner calls scripted, {seen.get(cid, 0)} samples"
             raise HarnessError("executor did not produce one sample per scripted call: " + orc_note)
+    # direct oracle: a sample's absolute_time is the wall clock at which its request really started (throttled or not, on or
+    # behind schedule) - the elapsed time of the task, hence every throughput value, is derived from it
+    if stamp_failures:
+        k, ci, i, got, want = stamp_failures[0]
+        thr = [t for t in case["tasks"] if t["k"] == k][0].get("throttle")
+        ctx.fail("stamp-not-request-start" + ("-throttled" if thr else ""),
+                 f"task {k} client {ci} request {i}: the sample's absolute_time is not the wall clock at the start of the request "
+                 f"({len(stamp_failures)} samples; the elapsed time of the task is derived from this field)", fs(want), fs(got))
+    # the throttling wait against the model: when each request started, given what the schedule handed out and when
+    for (k, ci), log in sorted(sched_log.items()):
+        began = [b[0] for b in starts.get((k, ci), [])]
+        tm = ctx.model("throughput", "throttle", {"total_start": fs(task_start_perf),
+                                                  "reqs": [{"expected": fs(e), "free": fs(f)} for e, f in log[: len(began)]]})
+        if "r" not in tm:
+            raise HarnessError(f"model rejected the throttle case: {tm}")
+        for tag in tm.get("tags", []):
+            ctx.count("throttle:" + tag)
+        want = [Fraction(x) for x in tm["r"]]
+        # rounding of the float additions + the loop's clock resolution (1 ns)
+        if len(began) != len(log) or any(abs(Fraction(b) - w) > Fraction(4, 10 ** 9) for b, w in zip(began, want)):
+            ctx.diff(f"task {k} client {ci}: start of each request (performance counter) given the schedule's expected times",
+                     [str(float(w)) for w in want], [str(b) for b in began])
     while any(per_worker):
         w = rng.choice([i for i, ch in enumerate(per_worker) if ch])
         ships.append(per_worker[w].pop(0))
@@ -1196,7 +1328,7 @@ def run_exec_case(ctx, case):
         if case["cut"] == "every-shipment" or (case["cut"] == "random" and rng.random() < p):
             events.append("pp")
     events.append("pp")
-    vals = sorted({(t["mode"], t["loop"]) for t in case["tasks"]})
+    vals = sorted({(t["mode"], t["loop"], t.get("throttle") is not None) for t in case["tasks"]})
     zero = any(c["result"].get("tput") not in ("absent", None) and c["result"]["k"] == "dict" and Fraction(c["result"]["tput"]["q"]) == 0
                for t in case["tasks"] for cl in t["clients"] for c in cl["calls"])
     ctx.count("class:supplied-zero" if zero else "class:no-supplied-zero")
@@ -1377,7 +1509,7 @@ def gen_transport_direct(ctx):
                 script.append(["deliver", rng.randrange(workers)])
             if r < 0.25:
                 script.append(["postprocess"])
-        yield {"n": n, "workers": workers, "script": script, "warmup": rng.choice([0, 0, n // 3, n]), "downsample": rng.choice([1, 1, 2]),
+        yield {"n": n, "workers": workers, "script": script, "warmup": rng.choice([0, 0, n // 3, n]), "downsample": rng.choice([1, 1, 2, 3]),
                "queue": rng.choice(["worker-default", "worker-default", "sampler-default"])}
 
 
@@ -1393,7 +1525,7 @@ def run_transport_direct(ctx, case):
     real = lambda f: getattr(f, "__wrapped__", f)  # the simulator's observation wrappers may be installed in this process
     sampler_add = real(driver.Sampler.add)
     post_process = real(driver.Driver.post_process_samples)
-    cfg, store = _new_store()
+    d, store, ds_opt = _new_driver(case)
     spy = []
     orig = store.put_value_cluster_level
 
@@ -1412,9 +1544,6 @@ def run_transport_direct(ctx, case):
         q = driver.Sampler(start_timestamp=0.0, buffer_size=1 << 20) if case["queue"] == "worker-default" else driver.Sampler(start_timestamp=0.0)
         ws.__dict__.update(sampler=q, worker_id=w, driver_actor="driver", send=lambda dst, m: sent.append(m), logger=logging.getLogger("esrally.driver.driver"))
         workers.append(ws)
-    d = driver.Driver(None, cfg)
-    d.metrics_store = store
-    d.sample_post_processor = driver.SamplePostprocessor(store, case.get("downsample", 1), {}, {})
     calc = d.sample_post_processor.throughput_calculator
     if hasattr(calc.calculate, "__wrapped__") or hasattr(type(calc).calculate, "__wrapped__"):
         import types as _t
